@@ -147,6 +147,44 @@ func runC13(c *Ctx) {
 	}
 	c.Min("C13.U1", 12)
 
+	// ---- U2 duplicate detection: a local set that is both searched and filled in one function is searched with the same
+	// key expression it is filled with (looking up the canonical form but storing the raw text never finds the duplicate)
+	nSets := 0
+	for _, f := range allFuncs(sp) {
+		if c.isGenFile(f.Pos()) {
+			continue
+		}
+		forEachInstr(f, func(in ssa.Instruction) {
+			mm, ok := in.(*ssa.MakeMap)
+			if !ok {
+				return
+			}
+			look, fill := map[string]bool{}, map[string]bool{}
+			for _, r := range *mm.Referrers() {
+				switch y := r.(type) {
+				case *ssa.Lookup:
+					look[c.Path(y.Index, nil)] = true
+				case *ssa.MapUpdate:
+					if _, isK := y.Key.(*ssa.Const); !isK {
+						fill[c.Path(y.Key, nil)] = true
+					}
+				}
+			}
+			if len(look) == 0 || len(fill) == 0 {
+				return
+			}
+			nSets++
+			same := len(look) == len(fill)
+			for k := range look {
+				if !fill[k] {
+					same = false
+				}
+			}
+			c.Check("C13.U2", "seen-set:"+short(f.String()), same, mm.Pos(), fmt.Sprintf("the set is searched with %v and filled with %v", keysOfBool(look), keysOfBool(fill)))
+		})
+	}
+	c.Min("C13.U2", 3)
+
 	// ---------------- G1 helpers
 	reqArray := func(key string, f *ssa.Function, vpath string) {
 		c.CheckGuard("C13.G1", key+":value-is-array", f, nil, &GCheck{Name: "value.([]interface{}) ok", MatchOK: func(c *Ctx, v ssa.Value, env Env) bool {
@@ -509,3 +547,4 @@ func (c *Ctx) jwkValidateRules(rule, key string, f *ssa.Function, member func(st
 		c.CheckGuard(rule, key+":"+strings.ToLower(m)+"-required-unless-rsa", f, nil, anyOf("RSA, or "+m+" present", notRSA, cmpReject(m+` == "" rejected`, token.EQL, member(m), pathIs(`""`))))
 	}
 }
+
